@@ -23,7 +23,7 @@ class Check(RuntimeCheck):
     prop = 'C03'
     design_ref = 'DESIGN.md §4.4, §5 C03'
     theorems = ['C03_verify_iff', 'C03_lines', 'C03_line_count', 'C03_quantifier_meaning',
-                'C03_expectation_of_chain', 'C03_teardown_verdict']
+                'C03_expectation_of_chain', 'C03_teardown_verdict', 'C03_counts_are_matches', 'C03_final_count_is_matches']
 
     def rule(self):
         return ("exhaustive: 1..3 patterns (each accepting one distinct argument) over 1..2 methods, each with a chain from a "
